@@ -31,7 +31,13 @@ import Atomman.C01
 open Atomman Atomman.C01
 
 /-- the double nearest to `1e-9` (the literal `atol=1e-9` of the setter), exactly. -/
-def thr : Rat := mkRat 4835703278458517 4835703278458516698824704
+def thr : Rat := mkRat atolNum atolDen
+
+/-- a flat list of numbers as rows of three (`none` unless the length is a multiple of 3). -/
+def triples : List Rat → Option (List (V3 Rat))
+  | [] => some []
+  | x :: y :: z :: rest => (triples rest).map (fun t => ⟨x, y, z⟩ :: t)
+  | _ => none
 
 def famName : SetFamily → String
   | .unit => "unit" | .vects => "vects" | .vectors => "vectors" | .lengths => "lengths"
@@ -138,6 +144,44 @@ def stepC01 (c : CBox Rat) (toks : List String) : CBox Rat × String :=
         | .ok f => "ok:" ++ famName f
         | .errAssert => err "assert"
         | .errType => err "type")
+  | "shape" :: which :: dims =>
+    match parseNats? dims with
+    | none => (c, err "format")
+    | some sh =>
+      let o := if which == "conv" then some (convShape sh) else if which == "inside" then some (insideShape sh) else none
+      (c, match o with
+          | some (.ok r) => " ".intercalate ("ok" :: r.map toString)
+          | some .errValue => err "value"
+          | some .errIndex => err "index"
+          | none => err "op")
+  | ["angle", i, j, n1, n2] =>
+    match i.toNat?, j.toNat?, parseRats? [n1, n2] with
+    | some i, some j, some [n1, n2] =>
+      let row : Nat → Option (V3 Rat) := fun k =>
+        if k = 0 then some st.vects.r0 else if k = 1 then some st.vects.r1 else if k = 2 then some st.vects.r2 else none
+      match row i, row j with
+      | some u, some v => if n1 = 0 || n2 = 0 then (c, err "value") else (c, showRat (clampCos (angleCos u v n1 n2)))
+      | _, _ => (c, err "value")
+    | _, _, _ => (c, err "format")
+  | "r2cs" :: rest =>
+    match parseRats? rest with
+    | some xs => match triples xs with
+      | some pts => (c, showRats ((r2cAll st pts).flatMap V3.toList))
+      | none => (c, err "value")
+    | none => (c, err "format")
+  | "c2rs" :: rest =>
+    match parseRats? rest with
+    | some xs => match triples xs with
+      | some pts => if st.vects.det = 0 then (c, err "value") else (c, showRats ((c2rAll st pts).flatMap V3.toList))
+      | none => (c, err "value")
+    | none => (c, err "format")
+  | "insides" :: incl :: rest =>
+    match parseRats? rest with
+    | some xs => match triples xs with
+      | some pts => if st.vects.det = 0 then (c, err "value") else
+          (c, " ".intercalate ((insideAll st Lams.ones pts (incl == "1")).map showBool))
+      | none => (c, err "value")
+    | none => (c, err "format")
   | _ => (c, err "op")
 
 def main : IO Unit := runDriverS stepC01 CBox.fresh
